@@ -414,7 +414,13 @@ func driveC12(c *driverCtx) error {
 		var stderr bytes.Buffer
 		cmd.Stderr = &stderr
 		cmd.Env = append(os.Environ(), "GORACE=halt_on_error=0 exitcode=0")
-		err := cmd.Run()
+		err := runWithTimeout(cmd, 5*time.Minute)
+		if err == errChildTimeout {
+			// the goroutines never finished: a deadlock (or livelock) between the operations
+			c.rec.NewCase()
+			c.rec.Emit(fmt.Sprintf("C12|stress|run%d", run), map[string]any{"op": "conc_crash", "detail": "the stress process did not finish within 5 minutes (deadlock): " + clipS(stderr.String(), 800)})
+			continue
+		}
 		key := fmt.Sprintf("C12|stress|run%d", run)
 		c.rec.NewCase()
 		libRace, harnessRace := classifyRaces(stderr.String())
@@ -481,4 +487,22 @@ func classifyRaces(report string) (lib, harnessOnly bool) {
 		}
 	}
 	return
+}
+
+var errChildTimeout = fmt.Errorf("child timed out")
+
+func runWithTimeout(cmd *exec.Cmd, d time.Duration) error {
+	if err := cmd.Start(); err != nil {
+		return err
+	}
+	done := make(chan error, 1)
+	go func() { done <- cmd.Wait() }()
+	select {
+	case err := <-done:
+		return err
+	case <-time.After(d):
+		cmd.Process.Kill()
+		<-done
+		return errChildTimeout
+	}
 }
